@@ -36,6 +36,10 @@ CLAIMED = {
   text="Bounded symbolic execution of the real spec stack (httpspec.NewStack, removeHopByHopHeaders, ViaModifier, forwarded and bad-framing modifiers, fifo.Group; strings/net/textproto canonicalisation from SSA) on messages whose Connection list elements are fully symbolic strings: z3 chooses letter case, surrounding whitespace and non-token bytes, and the oracle is the direct statement of the property (a header survives, untouched, iff it is not in the fixed hop-by-hop list and not named case-insensitively by any Connection element). Via chains over several header lines with any entry naming this instance must be detected (error, round trip skipped, 400) or extended by exactly one entry after all existing ones; X-Forwarded-* append/preserve; conflicting Content-Length (symbolic digits) or a Transfer-Encoding not ending in chunked must be flagged by the stack.",
   note="Bounds: one fully symbolic Connection element of 2..3 (quick) / 2..4 (thorough) bytes combined with concrete partners over 1..2 header lines (thorough: two symbolic elements); Via 0..2 lines x 1..2 entries from 3 entry shapes; X-Forwarded-For 0..2 lines; Content-Length 0..2 lines of 1..2 symbolic digits; 4 Transfer-Encoding shapes. regexp [\\t ]+ Split is an engine model. Trusted: go/ssa, symgo, z3.",
   ref="DESIGN.md section 6, C14"),
+ "C12": dict(
+  text="Bounded symbolic execution of the real parse.FromJSON/NewResult, fifo and priority groupFromJSON and Modify*, filter.Filter, header.Filter/Matcher/Append, martianhttp servePOST/ModifyRequest/ModifyResponse and MultiError from SSA over generated configuration trees. The JSON text of each tree is fed to the real registry; priorities are symbolic digits and every filter condition reads a symbolic header byte, so z3 decides every ordering and branch. The oracle is a depth-first reference evaluator written from the property statement (FIFO order, descending priority with later-listed first among equals, condition/else, scope projection at every level, first-error stop vs aggregation with every error once); compared are the append-only trace written by the leaves and the number of reported errors. A second harness corrupts a configuration at every depth (unknown modifier, bad scope, malformed JSON, two keys, wrong value type) and checks whole-configuration rejection, and that a rejected POST keeps the previous configuration while an accepted one replaces it.",
+  note="Bounds: trees of depth 1, fan-out 2, 5 scope variants per node (quick); depth 2, fan-out 2, 3 scope variants below the root (thorough); node types fifo.Group, priority.Group, header.Filter, header.Append. Other registered filters (url, querystring, method, cookie) are not instantiated. encoding/json is an engine model (order-preserving parser, decode by tag). Trusted: go/ssa, symgo, z3.",
+  ref="DESIGN.md section 6, C12"),
 }
 
 NOT_YET = "check not built yet in this round; planned with the same technique (DESIGN.md section 6)"
